@@ -86,6 +86,14 @@ def mismatch2(rng, pf2):
         return None
     lv = rng.choice(cands)
     lev = pf2.levels[lv]
+    if rng.random() < 0.35:
+        # the second plotfile's level is the first one's with its LAST box missing (every box it lists matches)
+        b = len(lev.boxes) - 1
+        lev.boxes.pop(b)
+        lev.data.pop(b)
+        lev.files = [(n, [m for m in mem if m != b]) for n, mem in lev.files]
+        lev.files = [(n, mem) for n, mem in lev.files if mem]
+        return f'second plotfile lacks the last box of level {lv} (its boxes are a prefix of the first one\'s)'
     shape = lambda b: tuple(h - l + 1 for l, h in zip(*b))
     pairs = [(a, b) for a in range(len(lev.boxes)) for b in range(a + 1, len(lev.boxes)) if shape(lev.boxes[a]) == shape(lev.boxes[b])]
     if not pairs:
